@@ -262,6 +262,20 @@ def main : IO UInt32 := do
     (fun o => showM bstr (Gen.Tr.IsExpired Eh (encT o))) (fun o => bstr (O2P.Session.isExpired { expiresOn := o } Eh.nowNs)))
   bad := bad + (← firstDiff "Age" tms (fun o => "CreatedAt=" ++ showOT o ++ " now=" ++ toString Eh.nowNs)
     (fun o => showM toString (Gen.Tr.Age Eh (encT o))) (fun o => toString (O2P.Session.ageNs { createdAt := o } Eh.nowNs)))
+  -- the session-ticket text format: what encodeTicket writes must decode to the same id and secret; other shapes have neither
+  let ids : List Str := (["", "a", "ticket-0123456789abcdef", "a.b", "v2", "x y"] : List String).map String.toList
+  let secs : List Str := [[], ['s'], rep 'k' 16, (List.range 16).map (fun i => Char.ofNat (i * 16 + 7)), ['.', '.']]
+  let showT : Go.M (Str × Go.Err) → String := fun r => showM (fun p => if p.2 == none then "ok " ++ q p.1 else "error") r
+  bad := bad + (← firstDiff "ticket_roundtrip" (ids.flatMap fun i => secs.map fun k => (i, k)) showPair
+    (fun p => match Gen.Tr.encodeTicket E0 p.1 p.2 with
+      | .ok enc => showT (Gen.Tr.decodeTicketID E0 (Go.stringsSplit enc ['.'])) ++ " / " ++ showT (Gen.Tr.decodeTicketSecret E0 (Go.stringsSplit enc ['.']))
+      | .error e => "PANIC(" ++ e ++ ")")
+    (fun p => "ok " ++ q p.1 ++ " / ok " ++ q p.2))
+  let shapes : List (List Str) := ([[], ["x"], ["v2"], ["a", "b", "c"], ["v1", "YQ", "YQ"], ["v2", "YQ", "YQ", "YQ"], ["V2", "YQ", "YQ"], ["v2", "!!", "YQ"], ["v2", "YQ", "!!"], ["id", "!!"]] : List (List String)).map (·.map String.toList)
+  let wantShape : List Str → String := fun ps => match ps.map String.ofList with
+    | ["v2", "!!", "YQ"] => "error / ok \"a\"" | ["v2", "YQ", "!!"] => "ok \"a\" / error" | ["id", "!!"] => "ok \"id\" / error" | _ => "error / error"
+  bad := bad + (← firstDiff "decodeTicket(other shapes)" shapes qs
+    (fun ps => showT (Gen.Tr.decodeTicketID E0 ps) ++ " / " ++ showT (Gen.Tr.decodeTicketSecret E0 ps)) wantShape)
   IO.println s!"trsearch: {bad} function(s) with a disagreement"
   return (if bad == 0 then 0 else 1)
 
